@@ -293,6 +293,7 @@ def request_during_rule_change(chk, binp, what="the rules enforced for each endp
                 continue
             time.sleep(0.4)
             stack.hosts.take()
+            stack.ctl("ktrace")
             stack.ctl("stallactor key_keeper SetImdsRuleId 1200 0")
             res = {}
             th = threading.Thread(target=lambda: res.update(st=kp.step(plan(d2), kick=False, timeout=20.0)), daemon=True)
@@ -306,6 +307,22 @@ def request_during_rule_change(chk, binp, what="the rules enforced for each endp
             th.join(timeout=25)
             stack.ctl("khook off")
             time.sleep(0.05)
+            # the messages of the change as the state actor handled them, against the model's program for it (Gpa.KeyKeeper.changeProgram)
+            tr = [x for x in stack.ctl("ktrace").split(",") if x in ("SetImdsRuleId", "SetImdsRules", "GetImdsRules")]
+            try:
+                mo = vlib.run_driver(["rulechange %s %s" % (hx(("rule-%d" % (k + 1)).encode()), hx(("rule-%d" % (k + 2)).encode()))])[0]
+            except RuntimeError as e:
+                chk.broken.append({"kind": "driver", "name": "rulechange", "why": str(e)})
+                mo = None
+            if mo is not None:
+                want = [{"setId": "SetImdsRuleId", "setRules": "SetImdsRules"}[x] for x in mo.split(",") if x != "-"]
+                got = [x for x in tr if x != "GetImdsRules"]
+                if got != want:
+                    chk.disagreement("rule-change-messages", {"change": "rule-%d -> rule-%d" % (k + 1, k + 2)}, want, got)
+                if all(x in tr for x in ("GetImdsRules", "SetImdsRuleId", "SetImdsRules")):
+                    last_set = len(tr) - 1 - tr[::-1].index("SetImdsRules")
+                    if any(tr.index("SetImdsRuleId") < i < last_set for i, x in enumerate(tr) if x == "GetImdsRules"):
+                        chk.count("rule_reads_placed_between_the_two_messages")
             recs = [x for x in stack.hosts.take() if not x.get("partial")]
             chk.case(nontrivial_key=("request-during-rule-change", k, r and r["status"], len(recs)))
             chk.count("requests_during_a_rule_change")
